@@ -34,7 +34,7 @@ def mc_cfg():
 
 
 # ---------------------------------------------------------------- rendering
-SHAPES = ["none", "scalars", "nested_list", "nested_map", "lazy_inside", "eager_inside", "type_inside"]
+SHAPES = ["none", "scalars", "nested_list", "nested_map", "lazy_inside", "eager_inside", "type_inside", "tok_inside"]
 
 
 def shape_args(shape, form, i):
@@ -55,6 +55,8 @@ def shape_args(shape, form, i):
             "nested_map": ("[{a: {b: %d}}, {}]" % i, ({"a": {"b": i}}, {})),
             "lazy_inside": ("[!VLazy {k: [1, 2]}, %d]" % i, (("lazy", (), {"k": [1, 2]}), i)),
             "eager_inside": ("[!VEager [4, [5]], %d]" % i, (("eager", (4, [5]), {}), i)),
+            # a bare tag whose factory makes an object (no template): a fresh one per occurrence
+            "tok_inside": ("[!VTok , %d, [!VTok ]]" % i, ("TOK", i, ["TOK"])),
         }
         y, a = table[shape]
         return y, a, {}
@@ -64,6 +66,7 @@ def shape_args(shape, form, i):
         "nested_map": ("{a: &m%d {b: {c: %d}}, d: {}}" % (i, i), {"a": {"b": {"c": i}}, "d": {}}),
         "lazy_inside": ("{a: !VLazy {k: [1, %d]}}" % i, {"a": ("lazy", (), {"k": [1, i]})}),
         "eager_inside": ("{a: !VEager [4, [%d]]}" % i, {"a": ("eager", (4, [i]), {})}),
+        "tok_inside": ("{a: !VTok , b: [%d, !VTok ]}" % i, {"a": "TOK", "b": [i, "TOK"]}),
     }
     y, k = table[shape]
     return y, (), k
@@ -131,7 +134,10 @@ def render(case):
 def plain(x):
     """objects made by the fixture factories -> comparable tuples"""
     from vp.fx_translate import Made
+    from vp.fx_plugins import Tok
 
+    if isinstance(x, Tok):
+        return "TOK"
     if isinstance(x, Made):
         return ("Made", x.ident, plain(tuple(x.args)), plain(dict(x.kwargs)))
     if isinstance(x, dict):
@@ -180,11 +186,25 @@ def execute(case):
     finally:
         os.unlink(path)
     events = []
+    seen_toks = []
+
+    def toks_fresh(x):
+        """every object made by a bare !VTok is made by THIS load and given to one place only"""
+        if isinstance(x, fx.Tok):
+            ok = any(x is t for t in fx.TOKS) and not any(x is t for t in seen_toks)
+            seen_toks.append(x)
+            return ok
+        if isinstance(x, dict):
+            return all([toks_fresh(v) for v in x.values()])
+        if isinstance(x, (list, tuple)):
+            return all([toks_fresh(v) for v in x])
+        return True
+
     for kind, pos, args, kwargs in fx.LOG:
-        if kind.startswith(("VLazy", "VEager")):
+        if kind.startswith(("VLazy", "VEager", "VTok")):
             continue
         ea, ek = expect.get(pos, ((), {}))
-        events.append({"e": "Construct", "i": pos, "argsok": bool(plain(tuple(args)) == plain(tuple(ea)) and plain(dict(kwargs)) == plain(dict(ek)))})
+        events.append({"e": "Construct", "i": pos, "argsok": bool(plain(tuple(args)) == plain(tuple(ea)) and plain(dict(kwargs)) == plain(dict(ek)) and toks_fresh([args, kwargs]))})
     events.append(end)
     return {"n": case["n"], "forms": case["forms"], "failpos": case["failpos"], "seed": case["seed"], "events": events, "yaml": text, "exc": exc}
 
